@@ -457,7 +457,7 @@ Definition symbol_branch (s : st) (t : tx) : Z * list eff :=
   match t_data t with
   | CreateToken _ symlen _ _ _ _ _ _ =>
     let sp := t_gas_price t * ticker_price (s_prices s) symlen in
-    if 0 <? sp then (cOK, [ERpool (- sp); EBal zero_address 0 sp]) else (cCommissionCoinNotSufficient, [])
+    if 0 <? sp then (cOK, [ERpool (- sp); EBal zero_address 0 sp]) else (cOK, [])   (* zero ticker fee: nothing to burn *)
   | _ => (cOK, [])
   end.
 
